@@ -42,7 +42,7 @@ Theorem C06_analyze_fused :
 Proof. exact an_fused. Qed.
 
 (* the token bound on the engine fragment with capturing groups, no hypothesis about the matcher *)
-Theorem C06_fragment_token_bound :
+Theorem C06_fragment_token_bound_partial :
   forall prog input,
     simple input (p_case prog) (p_multi prog) (p_hasbackrefs prog) (p_maxparens prog) (p_op prog) ->
     framed (p_op prog) ->
@@ -56,7 +56,7 @@ Proof. exact fragment_token_bound. Qed.
 
 (* every match such a program reports is non-empty, inside the input, at or after the search
    position, and leaves the matcher in a state it accepts again *)
-Theorem C06_fragment_good_step :
+Theorem C06_fragment_good_step_partial :
   forall prog input,
     simple input (p_case prog) (p_multi prog) (p_hasbackrefs prog) (p_maxparens prog) (p_op prog) ->
     framed (p_op prog) ->
@@ -69,7 +69,7 @@ Proof. exact fragment_good_step. Qed.
 (* from the pattern and flag strings, on the grammar of literals, alternation and nested groups: if
    Regex::new does not flag the regex as matching the empty string, tokenize finishes within len+3
    steps with at most len+1 tokens; nothing is assumed about parser, matcher or scan loop *)
-Theorem C06_group_grammar_tokenize_end_to_end :
+Theorem C06_group_grammar_tokenize_end_to_end_partial :
   forall xpath a fls input,
     ok_a xpath a = true -> existsb (N.eqb 59) fls = false -> (N.of_nat (length input) < umax)%N ->
     match spec_flags xpath fls with
@@ -89,6 +89,6 @@ Print Assumptions C06_fused.
 Print Assumptions C06_engine_fragment_no_fuel_exhaustion_partial.
 Print Assumptions C06_analyze_bound_partial.
 Print Assumptions C06_analyze_fused.
-Print Assumptions C06_fragment_token_bound.
-Print Assumptions C06_fragment_good_step.
-Print Assumptions C06_group_grammar_tokenize_end_to_end.
+Print Assumptions C06_fragment_token_bound_partial.
+Print Assumptions C06_fragment_good_step_partial.
+Print Assumptions C06_group_grammar_tokenize_end_to_end_partial.
